@@ -84,7 +84,12 @@ func hostile(t *rapid.T, depth int) val.V {
 		var m []val.KV
 		for i := 0; i < n; i++ {
 			var key val.V
-			switch rapid.IntRange(0, 5).Draw(t, "keyKind") {
+			switch rapid.IntRange(0, 8).Draw(t, "keyKind") {
+			case 6:
+				// keys a decoder hands over besides the usual ones: null (CBOR f6 / YAML ~), plain int (YAML),
+				// timestamps (YAML), tags, simple values and arrays (CBOR)
+				key = rapid.SampledFrom([]val.V{val.Nil(), val.Int("int", 1), {T: "time", S: "86400"}, {T: "tag", S: "42", L: []val.V{val.Int("int64", 1)}}, {T: "simple", S: "200"},
+					{T: "array", L: []val.V{val.Int("int64", 1), val.Str("a")}}, {T: "mystr", S: "a"}}).Draw(t, "oddKey")
 			case 0:
 				key = val.Int("int64", int64(rapid.IntRange(-2, 2).Draw(t, "ik")))
 			case 1:
